@@ -430,4 +430,45 @@ theorem Plan.pending_blocked (op : Gates) (p : Plan ε α ρ) (h : (p.poll op).2
     from polls. -/
 theorem Plan.run_nil (p : Plan ε α ρ) : p.run [] = ([], p) := rfl
 
+/-! ### Sequencing: what runs after the last step (the handler)
+
+  `pl.bind k sm`: when `pl` ends normally with `r`, go on with the plan `(k r).2`, whose entry events `(k r).1` are
+  emitted at that moment; when a step of `pl` stops early with `r`, the result is `sm r` and nothing else runs. -/
+
+def Plan.bind : Plan ε α ρ → (ρ → List ε × Plan ε α ρ') → (ρ → ρ') → List ε × Plan ε α ρ'
+  | .done r, k, _ => k r
+  | .step stop onStop ts pre next, k, sm =>
+    ([], .step stop (fun a => sm (onStop a)) ts (fun outs => pre outs ++ ((next outs).bind k sm).1)
+      (fun outs => ((next outs).bind k sm).2))
+
+/-- every early-stop result of the plan satisfies `P` -/
+inductive Plan.AllStops (P : ρ → Prop) : Plan ε α ρ → Prop
+  | done (r : ρ) : Plan.AllStops P (.done r)
+  | step (stop : α → Bool) (onStop : α → ρ) (ts : List (Task ε α)) (pre : List α → List ε) (next : List α → Plan ε α ρ)
+      (hs : ∀ a, P (onStop a)) (h : ∀ outs, Plan.AllStops P (next outs)) : Plan.AllStops P (.step stop onStop ts pre next)
+
+/-- canonical run of a sequenced plan = canonical run of the first, then of the continuation -/
+theorem Plan.bind_canon (P : ρ → Prop) (k : ρ → List ε × Plan ε α ρ') (sm : ρ → ρ')
+    (hk : ∀ r, P r → k r = ([], .done (sm r))) (pl : Plan ε α ρ) (hP : pl.AllStops P) :
+    (pl.bind k sm).1 ++ (pl.bind k sm).2.canon.1 = pl.canon.1 ++ (k pl.canon.2).1 ++ (k pl.canon.2).2.canon.1 ∧
+    (pl.bind k sm).2.canon.2 = (k pl.canon.2).2.canon.2 := by
+  induction hP with
+  | done r => simp [Plan.bind, Plan.canon]
+  | step stop onStop ts pre next hs _ ih =>
+    simp only [Plan.bind, Plan.canon, List.nil_append]
+    cases hfs : (firstStop stop ts).2 with
+    | some a => simp [hk _ (hs a), Plan.canon]
+    | none =>
+      obtain ⟨i1, i2⟩ := ih (ts.map (·.out))
+      simp only
+      refine ⟨?_, i2⟩
+      rw [List.append_assoc, List.append_assoc, i1]
+      simp [List.append_assoc]
+
+theorem Plan.bind_nostop (k : ρ → List ε × Plan ε α ρ') (sm : ρ → ρ') (hk : ∀ r, (k r).2.NoStop)
+    (pl : Plan ε α ρ) (hp : pl.NoStop) : (pl.bind k sm).2.NoStop := by
+  induction hp with
+  | done r => exact hk r
+  | step stop onStop ts pre next hs _ ih => exact Plan.NoStop.step _ _ _ _ _ hs ih
+
 end JoinModel
